@@ -331,3 +331,299 @@ def canon_result(r):
     if type(r).__name__ == "MatchFile":
         return ["match", [str(l.matchline) if hasattr(l, "matchline") else str(l) for l in r.lines]]
     return _FP(False).canon(r)
+
+
+# ---------------------------------------------------------------------------------------
+# 3. Generators (everything is a JSON-able spec; build_* turn a spec into live objects)
+
+STEPS = ["C", "D", "E", "F", "G", "A", "B"]
+SYM = {Fraction(4): "whole", Fraction(2): "half", Fraction(1): "quarter", Fraction(1, 2): "eighth",
+       Fraction(1, 4): "16th", Fraction(3): ("half", 1), Fraction(3, 2): ("quarter", 1), Fraction(3, 4): ("eighth", 1)}
+
+
+def gen_part_spec(rng, pid="P0", rich=True, n_meas=None):
+    q = rng.choice([1, 2, 4, 4, 12, 12, 480])
+    beats = rng.choice([4, 4, 3, 2])
+    n_meas = n_meas or rng.randint(2, 6)
+    mlen = beats * q
+    total = n_meas * mlen
+    grid = q // 2 if q % 2 == 0 else q
+    if q % 12 == 0 and rng.random() < 0.4:
+        grid = q // 3
+    spec = {"id": pid, "q": q, "beats": beats, "n_meas": n_meas, "name": rng.choice([None, "Piano", "Vl"]),
+            "notes": [], "rests": [], "ties": [], "slurs": [], "tuplets": [], "repeats": [], "endings": [], "nav": [],
+            "keysig": None, "clefs": [], "dirs": [], "measures": rng.random() < 0.85, "pickup": False,
+            "ids": rng.choice(["all", "all", "none", "some"]), "staves": rng.choice([1, 1, 2])}
+    nvoices = rng.choice([1, 1, 2, 3])
+    sym_mode = rng.choice(["all", "none", "some", "some"])
+    nid = 0
+    for v in range(1, nvoices + 1):
+        t = 0
+        if v > 1:
+            t = rng.choice([0, grid, mlen]) if rng.random() < 0.5 else 0
+        while t < total:
+            d = rng.choice([1, 1, 2, 2, 3, 4]) * grid
+            if rng.random() < 0.12:
+                d = rng.choice([mlen, mlen + grid, 2 * mlen])  # crosses barlines
+            d = min(d, total - t)
+            if d <= 0:
+                break
+            kind = "note" if rng.random() < 0.85 else "rest"
+            staff = 1 if spec["staves"] == 1 else rng.choice([1, 2])
+            qd = Fraction(d, q)
+            sd = None
+            if sym_mode == "all" or (sym_mode == "some" and rng.random() < 0.5):
+                s = SYM.get(qd)
+                if s is not None:
+                    sd = {"type": s} if isinstance(s, str) else {"type": s[0], "dots": s[1]}
+            has_id = spec["ids"] == "all" or (spec["ids"] == "some" and rng.random() < 0.5)
+            if kind == "note":
+                chord = 1 if rng.random() < 0.8 else rng.choice([2, 3])
+                base = rng.randint(0, 6)
+                for c in range(chord):
+                    spec["notes"].append({"t": t, "d": d, "step": STEPS[(base + 2 * c) % 7], "alter": rng.choice([None, None, 0, 1, -1]),
+                                          "oct": rng.randint(2, 6), "voice": rng.choice([v, v, None]) if rng.random() < 0.1 else v,
+                                          "staff": staff if rng.random() < 0.9 else None, "sym": sd,
+                                          "id": ("n%d" % nid) if has_id else None,
+                                          "grace": False})
+                    nid += 1
+                if rng.random() < 0.06:
+                    spec["notes"].append({"t": t, "d": 0, "step": rng.choice(STEPS), "alter": None, "oct": 5, "voice": v, "staff": staff,
+                                          "sym": {"type": "eighth"}, "id": ("n%d" % nid) if has_id else None, "grace": True})
+                    nid += 1
+            else:
+                spec["rests"].append({"t": t, "d": d, "voice": v, "staff": staff, "sym": sd, "id": ("r%d" % nid) if has_id else None})
+                nid += 1
+            t += d
+    nn = len(spec["notes"])
+    real = [i for i, n in enumerate(spec["notes"]) if not n["grace"]]
+    if rich and len(real) >= 2:
+        # ties between consecutive same-voice notes (pitch copied)
+        for _ in range(rng.choice([0, 0, 1, 2])):
+            i = rng.choice(real)
+            a = spec["notes"][i]
+            cands = [j for j in real if spec["notes"][j]["t"] == a["t"] + a["d"] and spec["notes"][j]["voice"] == a["voice"]]
+            if cands:
+                j = cands[0]
+                for k in ("step", "alter", "oct"):
+                    spec["notes"][j][k] = a[k]
+                if all(i != x and j != y for x, y in spec["ties"]):
+                    spec["ties"].append([i, j])
+        for _ in range(rng.choice([0, 1, 1, 2])):
+            i, j = sorted(rng.sample(real, 2))
+            spec["slurs"].append([i, j])
+        for _ in range(rng.choice([0, 0, 1])):
+            i, j = sorted(rng.sample(real, 2))
+            spec["tuplets"].append([i, j, 3, 2])
+    if rich:
+        if rng.random() < 0.6:
+            spec["keysig"] = [rng.randint(-5, 5), rng.choice(["major", "minor", None])]
+        for s in range(1, spec["staves"] + 1):
+            if rng.random() < 0.6:
+                spec["clefs"].append([0, s, rng.choice([["G", 2], ["F", 4], ["C", 3]])])
+        if rng.random() < 0.2:
+            spec["clefs"].append([mlen, 1, ["F", 4]])
+        for _ in range(rng.choice([0, 0, 1, 2])):
+            spec["dirs"].append([rng.choice(["f", "p", "tempo", "cresc", "words", "fermata"]), rng.randrange(0, total, grid)])
+        if rng.random() < 0.15:
+            spec["ts2"] = [rng.randrange(1, n_meas) * mlen, rng.choice([[3, 4], [6, 8], [2, 4]])]
+        # navigation: weights on the combinations singled out by the property (segments are created lazily)
+        r = rng.random()
+        bars = [k * mlen for k in range(n_meas + 1)]
+        if r < 0.25 and n_meas >= 2:
+            e = rng.choice(bars[1:])
+            s = rng.choice([b for b in bars if b < e])
+            spec["repeats"].append([s, e])
+        elif r < 0.45 and n_meas >= 3:
+            k = rng.randint(1, n_meas - 2)
+            spec["repeats"].append([0, bars[k + 1]])
+            spec["endings"].append([bars[k], bars[k + 1], "1"])
+            spec["endings"].append([bars[k + 1], bars[k + 2], "2"])
+        elif r < 0.65 and n_meas >= 3:
+            spec["repeats"].append([0, bars[1]])
+            spec["nav"].append(["fine", bars[2]])
+            spec["nav"].append(["dacapo", bars[-1]])
+        elif r < 0.75 and n_meas >= 4:
+            spec["nav"].append(["segno", bars[1]])
+            spec["nav"].append(["tocoda", bars[2]])
+            spec["nav"].append(["dalsegno", bars[3]])
+            spec["nav"].append(["coda", bars[3]])
+        elif r < 0.8 and n_meas >= 4:
+            spec["repeats"].append([0, bars[1]])
+            spec["repeats"].append([bars[2], bars[3]])
+    return spec
+
+
+def build_part(spec):
+    import partitura.score as S
+
+    q = spec["q"]
+    p = S.Part(spec["id"], part_name=spec.get("name"), quarter_duration=q)
+    mlen = spec["beats"] * q
+    total = spec["n_meas"] * mlen
+    p.add(S.TimeSignature(spec["beats"], 4), 0)
+    if spec.get("ts2"):
+        p.add(S.TimeSignature(*spec["ts2"][1]), spec["ts2"][0])
+    if spec.get("keysig"):
+        p.add(S.KeySignature(spec["keysig"][0], spec["keysig"][1]), 0)
+    for t, staff, (sign, line) in spec.get("clefs", []):
+        p.add(S.Clef(staff=staff, sign=sign, line=line, octave_change=0), t)
+    objs = []
+    for n in spec["notes"]:
+        if n["grace"]:
+            o = S.GraceNote("acciaccatura", step=n["step"], octave=n["oct"], alter=n["alter"], id=n["id"], voice=n["voice"], staff=n["staff"],
+                            symbolic_duration=dict(n["sym"]) if n["sym"] else None)
+            p.add(o, n["t"], n["t"])
+        else:
+            o = S.Note(step=n["step"], octave=n["oct"], alter=n["alter"], id=n["id"], voice=n["voice"], staff=n["staff"],
+                       symbolic_duration=dict(n["sym"]) if n["sym"] else None)
+            p.add(o, n["t"], n["t"] + n["d"])
+        objs.append(o)
+    for r in spec["rests"]:
+        p.add(S.Rest(id=r["id"], voice=r["voice"], staff=r["staff"], symbolic_duration=dict(r["sym"]) if r["sym"] else None), r["t"], r["t"] + r["d"])
+    for i, j in spec["ties"]:
+        objs[i].tie_next = objs[j]
+        objs[j].tie_prev = objs[i]
+    for i, j in spec["slurs"]:
+        sl = S.Slur(objs[i], objs[j])
+        p.add(sl, objs[i].start.t, objs[j].end.t)
+    for i, j, an, nn in spec["tuplets"]:
+        tu = S.Tuplet(objs[i], objs[j], actual_notes=an, normal_notes=nn)
+        p.add(tu, objs[i].start.t, objs[j].end.t)
+    for kind, t in spec.get("dirs", []):
+        if kind in ("f", "p"):
+            p.add(S.ConstantLoudnessDirection(kind), t)
+        elif kind == "tempo":
+            p.add(S.Tempo(96, "q"), t)
+        elif kind == "cresc":
+            p.add(S.IncreasingLoudnessDirection("cresc."), t, min(total, t + mlen))
+        elif kind == "words":
+            p.add(S.Words("dolce"), t)
+        elif kind == "fermata":
+            p.add(S.Fermata(None), t)
+    for s, e in spec["repeats"]:
+        p.add(S.Repeat(), s, e)
+    for s, e, num in spec["endings"]:
+        p.add(S.Ending(num), s, e)
+    for kind, t in spec["nav"]:
+        cls = {"fine": S.Fine, "dacapo": S.DaCapo, "segno": S.Segno, "dalsegno": S.DalSegno, "coda": S.Coda, "tocoda": S.ToCoda}[kind]
+        p.add(cls(), t)
+    if spec.get("measures", True):
+        S.add_measures(p)
+    if spec.get("segments"):
+        S.add_segments(p)
+    if spec.get("musical_beat"):
+        p.use_musical_beat()
+    return p
+
+
+def gen_score_spec(rng):
+    npart = rng.choice([1, 1, 2, 2, 3])
+    n_meas = rng.randint(2, 5)
+    parts = [gen_part_spec(rng, "P%d" % i, n_meas=n_meas) for i in range(npart)]
+    return {"parts": parts, "group": npart >= 2 and rng.random() < 0.5, "title": rng.choice([None, "T"]),
+            "as": rng.choice(["score", "score", "score", "part", "list"])}
+
+
+def build_score(spec):
+    import partitura.score as S
+
+    parts = [build_part(ps) for ps in spec["parts"]]
+    if spec.get("group") and len(parts) >= 2:
+        g = S.PartGroup(group_symbol="bracket", group_name="G", number=1)
+        g.children = parts[:2]
+        for p in parts[:2]:
+            p.parent = g
+        structure = [g] + parts[2:]
+    else:
+        structure = parts
+    sc = S.Score(structure, id="sc", title=spec.get("title"), composer="anon")
+    return sc
+
+
+def gen_ppart_spec(rng, pid="PP0"):
+    n = rng.randint(0, 14) if rng.random() < 0.1 else rng.randint(3, 14)
+    notes = []
+    t = 0.0
+    for i in range(n):
+        t += rng.choice([0.0, 0.125, 0.25, 0.5])
+        d = rng.choice([0.125, 0.25, 0.5, 1.0])
+        nd = {"midi_pitch": rng.randint(30, 100), "note_on": t, "note_off": t + d, "velocity": rng.randint(1, 127)}
+        if rng.random() < 0.8:
+            nd["id"] = "pn%d" % i
+        if rng.random() < 0.5:
+            nd["track"] = rng.choice([0, 1])
+            nd["channel"] = rng.choice([0, 1, 9])
+        notes.append(nd)
+    controls = []
+    for _ in range(rng.choice([0, 0, 2, 5])):
+        c = {"time": rng.choice([0.0, 0.25, 0.75, 1.5, 3.0]), "number": rng.choice([64, 64, 67, 7]), "value": rng.choice([0, 20, 64, 100, 127])}
+        if rng.random() < 0.5:
+            c["track"] = 0
+            c["channel"] = 0
+        controls.append(c)
+    programs = []
+    if rng.random() < 0.3:
+        programs.append({"time": 0.0, "program": rng.randint(0, 20), "track": 0, "channel": 0})
+    return {"id": pid, "notes": notes, "controls": controls, "programs": programs,
+            "threshold": rng.choice([64, 64, 30, 127]), "ppq": rng.choice([480, 96]), "mpq": rng.choice([500000, 600000])}
+
+
+def build_ppart(spec):
+    import partitura.performance as P
+
+    return P.PerformedPart([dict(n) for n in spec["notes"]], id=spec["id"], part_name="perf",
+                           controls=[dict(c) for c in spec["controls"]], programs=[dict(c) for c in spec["programs"]],
+                           sustain_pedal_threshold=spec["threshold"], ppq=spec["ppq"], mpq=spec["mpq"])
+
+
+def gen_perf_spec(rng):
+    n = rng.choice([1, 1, 2, 3])
+    return {"pparts": [gen_ppart_spec(rng, "PP%d" % i) for i in range(n)], "as": rng.choice(["performance", "performance", "ppart", "list"]),
+            "unique_tracks": rng.random() < 0.3}
+
+
+def build_perf(spec):
+    import partitura.performance as P
+
+    return P.Performance("perf", [build_ppart(s) for s in spec["pparts"]], performer="x", title="t",
+                         ensure_unique_tracks=bool(spec.get("unique_tracks")))
+
+
+def gen_alignment_spec(rng):
+    """A part (ids on every note), a performed part derived from it, and an alignment."""
+    ps = gen_part_spec(rng, "P0")
+    ps["ids"] = "all"
+    k = 0
+    for n in ps["notes"]:
+        n["id"] = "n%d" % k
+        k += 1
+    return {"part": ps, "bpm": rng.choice([60, 100, 120]), "drop": rng.random(), "seed": rng.randrange(1 << 30)}
+
+
+def build_alignment(spec):
+    import random
+
+    import partitura.score as S
+    from partitura.utils.music import performance_from_part
+
+    part = build_part(spec["part"])
+    rr = random.Random(spec["seed"])
+    ppart = None
+    perf = performance_from_part(part, bpm=spec["bpm"])
+    ppart = perf[0] if not hasattr(perf, "notes") else perf
+    sids = [n.id for n in part.notes_tied]
+    al = []
+    pids = {pn["id"]: pn for pn in ppart.notes}
+    for sid in sids:
+        r = rr.random()
+        if sid in pids and r < 0.8:
+            al.append({"label": "match", "score_id": sid, "performance_id": sid})
+        elif sid in pids and r < 0.9:
+            al.append({"label": "deletion", "score_id": sid})
+            al.append({"label": "insertion", "performance_id": sid})
+        else:
+            al.append({"label": "deletion", "score_id": sid})
+            if sid in pids:
+                al.append({"label": "insertion", "performance_id": sid})
+    return al, ppart, part
